@@ -3,6 +3,7 @@
 set -e
 P="$1"; PROP="$2"; shift 2
 S=$(mktemp -d /tmp/hvmut.XXXXXX)
+trap 'git -C /repo worktree remove --force "$S/repo" 2>/dev/null; rm -rf "$S"' EXIT INT TERM
 git -C /repo worktree add --detach "$S/repo" HEAD >/dev/null 2>&1
 ( cd "$S/repo" && git apply --3way "$P" 2>/dev/null || git apply "$P" )
 cd /verif
